@@ -13,7 +13,18 @@ package parser
 // ---------------------------------------------------------------------------------------------
 
 //@ type parser.lexer
+//@   ghost $ts int, $mts int
 //@   invariant 0 <= self.p && self.p <= self.pe && self.pe == len(self.data) && 0 <= self.m && self.m <= self.pe
+
+// $ts: where the token the lexer last returned starts ($mts: its value at the last mark()).
+// idcur(l): the lexer stands right behind an identifier token and l.id is the text of that token -
+// the only situation in which identifier()/identifierStr() may be read ("otherwise, it's undefined").
+// tokcur(l, t): t is not an identifier, or it is the identifier the lexer stands behind.
+//@ macro idcur(l) = 0 <= l.$ts && l.$ts <= l.p && ufInt("lex.tok", l.data, l.$ts) == tkIdentifier && ufInt("lex.end", l.data, l.$ts) == l.p && l.id == ufStr("lex.id", l.data, l.$ts)
+//@ macro tokcur(l, t) = (t == tkIdentifier ==> idcur(l))
+//@ macro lexTok(l, s) = ufInt("lex.tok", l.data, s)
+//@ macro lexEnd(l, s) = ufInt("lex.end", l.data, s)
+//@ macro lexId(l, s) = IdentifierFromString(ufStr("lex.id", l.data, s))
 
 //@ func parser.lexer.next
 //@   trusted
@@ -25,7 +36,32 @@ package parser
 //@   ensures (result == tkEOF ==> l.p == l.pe) && (old(l.p) == l.pe ==> result == tkEOF)
 //@   ensures result == tkIdentifier ==> l.id == ufStr("lex.id", old(l.data), old(l.p)) && len(l.id) >= 1 && (sat(l.id, 0) == '"' ==> len(l.id) >= 2)
 //@   ensures result != tkIdentifier ==> l.id == old(l.id)
-//@   modifies l.p, l.id
+//@   ensures l.$ts == old(l.p)
+//@   modifies l.p, l.id, l.$ts
+
+// mark/rewind: save and restore the lexer's state - position and current identifier (the ghost token
+// start goes with them), so that looking ahead does not leave a stale identifier behind.
+//@ func parser.lexer.mark [C06]
+//@   requires l != nil
+//@   ensures l.m == l.p && l.mid == l.id
+//@   defines l.$mts == l.$ts
+//@   modifies l.m, l.mid, l.$mts
+
+//@ func parser.lexer.rewind [C06]
+//@   requires l != nil
+//@   ensures l.p == old(l.m) && l.id == old(l.mid)
+//@   defines l.$ts == old(l.$mts)
+//@   modifies l.p, l.id, l.$ts
+
+//@ func parser.lexer.identifier [C06, C09]
+//@   requires l != nil && idcur(l)
+//@   ensures result == IdentifierFromString(l.id)
+//@   modifies nothing
+
+//@ func parser.lexer.identifierStr [C06, C09]
+//@   requires l != nil && idcur(l)
+//@   ensures result == l.id
+//@   modifies nothing
 
 //@ func parser.lexer.init
 //@   requires l != nil
@@ -81,23 +117,37 @@ func verifSpecHandledSelect(current Identifier, qualified bool, qualifier Identi
 }
 
 //@ loop parser.untilToken #1
+//@   invariant tokcur(l, t)
 //@   invariant inv(l) && l.data == old(l.data) && l.m == old(l.m) && l.p >= old(l.p) && l.pe == old(l.pe)
 //@   decreases l.pe - l.p, ite(t == tkEOF, 0, 1)
 
 //@ func parser.untilToken [C09, C06]
+//@   ensures tokcur(l, result)
 //@   requires l != nil && inv(l)
 //@   ensures inv(l) && l.data == old(l.data) && l.m == old(l.m) && l.p >= old(l.p) && l.pe == old(l.pe)
 //@   ensures result == to || result == tkEOF
-//@   modifies l.p, l.id
+//@   modifies l.p, l.id, l.$ts
 
-// parseQualifiedIdentifier: "ks.table" or "table". dotted = the token after the first identifier is '.'.
-//@ func parser.parseQualifiedIdentifier [C09]
+// parseQualifiedIdentifier: "ks.table" or "table", read at the identifier the lexer stands behind
+// (s = where that identifier starts, e1 = where it ends, e2 = end of the token after it).
+// dotted = the token after the first identifier is '.'. The *-text clauses tie the returned names to
+// the statement's text at those positions, not to whatever l.id happened to hold.
+//@ func parser.parseQualifiedIdentifier [C09, C06]
+//@   let s = old(l.$ts)
+//@   let e1 = old(l.p)
+//@   let e2 = ufInt("lex.end", old(l.data), old(l.p))
+//@   let e3 = ufInt("lex.end", old(l.data), e2)
 //@   requires l != nil && inv(l)
+//@   requires id-current: idcur(l)
 //@   ensures inv(l) && l.data == old(l.data) && l.m == old(l.m) && l.p >= old(l.p) && l.pe == old(l.pe)
 //@   ensures dotted: err == nil && ufInt("lex.tok", old(l.data), old(l.p)) == tkDot ==> keyspace == IdentifierFromString(old(l.id))
 //@   ensures plain: err == nil && ufInt("lex.tok", old(l.data), old(l.p)) != tkDot ==> keyspace.id == "" && !keyspace.ignoreCase && target == IdentifierFromString(old(l.id))
+//@   ensures plain-text: lexTok(l, e1) != tkDot ==> err == nil && target == lexId(l, s) && t == lexTok(l, e1) && l.p == e2 && l.$ts == e1
+//@   ensures dotted-text: lexTok(l, e1) == tkDot && lexTok(l, e2) == tkIdentifier ==> err == nil && keyspace == lexId(l, s) && target == lexId(l, e2) && t == lexTok(l, e3) && l.$ts == e3 && l.p == lexEnd(l, e3)
+//@   ensures dotted-bad: lexTok(l, e1) == tkDot && lexTok(l, e2) != tkIdentifier ==> err != nil
+//@   ensures token-current: err == nil ==> tokcur(l, t)
 //@   ensures err != nil ==> t == tkInvalid
-//@   modifies l.p, l.id
+//@   modifies l.p, l.id, l.$ts
 
 //@ loop parser.parseSelector #1
 //@   invariant inv(l) && l.data == old(l.data) && l.pe == old(l.pe) && l.p >= old(l.p)
@@ -107,7 +157,7 @@ func verifSpecHandledSelect(current Identifier, qualified bool, qualifier Identi
 //@   requires l != nil && inv(l)
 //@   ensures inv(l) && l.data == old(l.data) && l.pe == old(l.pe)
 //@   ensures err == nil ==> l.p >= old(l.p)
-//@   modifies l.p, l.id, l.m
+//@   modifies l.p, l.id, l.m, l.mid, l.$ts, l.$mts
 
 //@ ghostvar $selReached bool
 //@ ghostvar $selDot bool
@@ -131,13 +181,13 @@ func verifSpecHandledSelect(current Identifier, qualified bool, qualifier Identi
 //@   known decision: $selDot && $selQual.id == "" && !$selQual.ignoreCase
 //@   ensures no-target: !$selReached || $selErr ==> !handled
 //@   ensures statement: handled && err == nil ==> typeis(stmt, *SelectStatement) && as(stmt, *SelectStatement).Keyspace == "system" && as(stmt, *SelectStatement).Table == $selTable.id
-//@   modifies l.p, l.id, l.m, $selReached, $selDot, $selErr, $selQual, $selTable
+//@   modifies l.p, l.id, l.m, l.mid, l.$ts, l.$mts, $selReached, $selDot, $selErr, $selQual, $selTable
 
 //@ func parser.isHandledUseStmt [C09]
 //@   requires l != nil && inv(l)
 //@   ensures handled == (ufInt("lex.tok", old(l.data), old(l.p)) == tkIdentifier)
 //@   ensures handled ==> err == nil && typeis(stmt, *UseStatement) && as(stmt, *UseStatement).Keyspace == ufStr("lex.id", old(l.data), old(l.p))
-//@   modifies l.p, l.id
+//@   modifies l.p, l.id, l.$ts
 
 // IsQueryHandled: only SELECT and USE can be handled; everything else is forwarded.
 //@ func parser.IsQueryHandled [C09]
@@ -206,20 +256,23 @@ func verifSpecNonIdempotentFunc(name Identifier) bool { return name.equal("uuid"
 //@   requires l != nil && inv(l)
 //@   ensures inv(l) && l.data == old(l.data) && l.pe == old(l.pe) && l.p >= old(l.p)
 //@   ensures first-token: err == nil ==> t == tkRparen || t == tkIdentifier
-//@   modifies l.p, l.id
+//@   modifies l.p, l.id, l.$ts
 
 //@ loop parser.parseType #1
+//@   invariant tokcur(l, t)
 //@   invariant inv(l) && l.data == old(l.data) && l.pe == old(l.pe) && l.p >= old(l.p)
 //@   decreases l.pe - l.p, ite(t == tkEOF, 0, 1)
 //@ func parser.parseType [C06]
+//@   ensures err == nil ==> tokcur(l, t)
 //@   requires l != nil && inv(l)
 //@   ensures inv(l) && l.data == old(l.data) && l.pe == old(l.pe) && l.p >= old(l.p)
 //@   ensures err != nil ==> t == tkInvalid
-//@   modifies l.p, l.id
+//@   modifies l.p, l.id, l.$ts
 
 // ---- terms (mutually recursive) ----
 
 //@ func parser.parseTerm [C06]
+//@   requires tok-current: tokcur(l, t)
 //@   local $sawNI bool = false
 //@   requires l != nil && inv(l)
 //@   decreases l.pe - l.p, ite(t == tkLsquare || t == tkLcurly || t == tkLparen || t == tkIdentifier, 2, 0)
@@ -235,12 +288,15 @@ func verifSpecNonIdempotentFunc(name Identifier) bool { return name.equal("uuid"
 //@   ensures literals: idempotent && (t == tkInteger) ==> typ == termIntegerLiteral
 //@   ensures bind-markers: idempotent && (t == tkQMark || t == tkColon) ==> typ == termBindMarker
 //@   ensures functions: idempotent && t == tkIdentifier ==> typ == termFunctionCall
+//@   ensures unqualified-function-rule: idempotent && t == tkIdentifier && lexTok(l, old(l.p)) != tkDot ==> !verifSpecNonIdempotentFunc(lexId(l, old(l.$ts)))
+//@   ensures system-function-rule: idempotent && t == tkIdentifier && lexTok(l, old(l.p)) == tkDot && lexId(l, old(l.$ts)).equal("system") ==> !verifSpecNonIdempotentFunc(lexId(l, ufInt("lex.end", old(l.data), old(l.p))))
 //@   ensures lists: idempotent && t == tkLsquare ==> typ == termListLiteral
 //@   ensures unknown-token: t == tkEOF || t == tkInvalid ==> !idempotent && err != nil
 //@   ensures term-start: idempotent ==> t == tkInteger || t == tkFloat || t == tkBool || t == tkNull || t == tkStringLiteral || t == tkHexNumber || t == tkUuid || t == tkDuration || t == tkNan || t == tkInfinity || t == tkColon || t == tkQMark || t == tkLsquare || t == tkLcurly || t == tkLparen || t == tkIdentifier
-//@   modifies l.p, l.id, l.m
+//@   modifies l.p, l.id, l.m, l.mid, l.$ts, l.$mts
 
 //@ loop parser.parseListTerm #1
+//@   invariant tokcur(l, t)
 //@   invariant inv(l) && l.data == old(l.data) && l.pe == old(l.pe) && l.p >= old(l.p) && !$sawNI && (t != tkEOF ==> l.p > old(l.p))
 //@   decreases l.pe - l.p, ite(t == tkEOF, 0, 1)
 //@ func parser.parseListTerm [C06]
@@ -252,12 +308,14 @@ func verifSpecNonIdempotentFunc(name Identifier) bool { return name.equal("uuid"
 //@   ensures error-not-idempotent: err != nil ==> !idempotent
 //@   ensures propagation: idempotent ==> !$sawNI
 //@   ensures typ == termListLiteral
-//@   modifies l.p, l.id, l.m
+//@   modifies l.p, l.id, l.m, l.mid, l.$ts, l.$mts
 
 //@ loop parser.parseUDTTerm #1
+//@   invariant tokcur(l, t)
 //@   invariant inv(l) && l.data == old(l.data) && l.pe == old(l.pe) && l.p >= old(l.p) && !$sawNI && (t == tkEOF || l.p > old(l.p) || (l.p == old(l.p) && t == old(t)))
 //@   decreases l.pe - l.p, ite(t == tkEOF, 0, 1)
 //@ func parser.parseUDTTerm [C06]
+//@   requires tok-current: tokcur(l, t)
 //@   local $sawNI bool = false
 //@   requires l != nil && inv(l)
 //@   decreases l.pe - l.p, ite(t == tkEOF, 0, 3)
@@ -266,12 +324,14 @@ func verifSpecNonIdempotentFunc(name Identifier) bool { return name.equal("uuid"
 //@   ensures error-not-idempotent: err != nil ==> !idempotent
 //@   ensures propagation: idempotent ==> !$sawNI
 //@   ensures typ == termSetMapUdtLiteral
-//@   modifies l.p, l.id, l.m
+//@   modifies l.p, l.id, l.m, l.mid, l.$ts, l.$mts
 
 //@ loop parser.parseSetOrMapTerm #1
+//@   invariant tokcur(l, t)
 //@   invariant inv(l) && l.data == old(l.data) && l.pe == old(l.pe) && l.p >= old(l.p) && !$sawNI && (t == tkEOF || l.p > old(l.p) || (l.p == old(l.p) && t == old(t)))
 //@   decreases l.pe - l.p, ite(t == tkEOF, 0, 1)
 //@ func parser.parseSetOrMapTerm [C06]
+//@   requires tok-current: tokcur(l, t)
 //@   local $sawNI bool = false
 //@   requires l != nil && inv(l)
 //@   decreases l.pe - l.p, ite(t == tkEOF, 0, 3)
@@ -280,7 +340,7 @@ func verifSpecNonIdempotentFunc(name Identifier) bool { return name.equal("uuid"
 //@   ensures error-not-idempotent: err != nil ==> !idempotent
 //@   ensures propagation: idempotent ==> !$sawNI
 //@   ensures typ == termSetMapUdtLiteral
-//@   modifies l.p, l.id, l.m
+//@   modifies l.p, l.id, l.m, l.mid, l.$ts, l.$mts
 
 //@ func parser.parseCastTerm [C06]
 //@   local $sawNI bool = false
@@ -291,12 +351,14 @@ func verifSpecNonIdempotentFunc(name Identifier) bool { return name.equal("uuid"
 //@   ensures error-not-idempotent: err != nil ==> !idempotent
 //@   ensures propagation: idempotent ==> !$sawNI
 //@   ensures typ == termCast
-//@   modifies l.p, l.id, l.m
+//@   modifies l.p, l.id, l.m, l.mid, l.$ts, l.$mts
 
 //@ loop parser.parseTupleTerm #1
+//@   invariant tokcur(l, t)
 //@   invariant inv(l) && l.data == old(l.data) && l.pe == old(l.pe) && l.p >= old(l.p) && !$sawNI && (t == tkEOF || l.p > old(l.p) || (l.p == old(l.p) && t == old(t)))
 //@   decreases l.pe - l.p, ite(t == tkEOF, 0, 1)
 //@ func parser.parseTupleTerm [C06]
+//@   requires tok-current: tokcur(l, t)
 //@   local $sawNI bool = false
 //@   requires l != nil && inv(l)
 //@   decreases l.pe - l.p, ite(t == tkEOF, 0, 3)
@@ -305,35 +367,40 @@ func verifSpecNonIdempotentFunc(name Identifier) bool { return name.equal("uuid"
 //@   ensures error-not-idempotent: err != nil ==> !idempotent
 //@   ensures propagation: idempotent ==> !$sawNI
 //@   ensures typ == termTupleLiteral
-//@   modifies l.p, l.id, l.m
+//@   modifies l.p, l.id, l.m, l.mid, l.$ts, l.$mts
 
 // A function call is not idempotent if it is now()/uuid() - unqualified or in keyspace system - or if
 // one of its argument terms is not idempotent.
 //@ loop parser.parseFunctionTerm #1
-//@   invariant inv(l) && l.data == old(l.data) && l.pe == old(l.pe) && l.p >= old(l.p) && !$sawNI && (t != tkEOF ==> l.p > old(l.p)) && $ftParsed
+//@   invariant tokcur(l, t)
+//@   invariant inv(l) && l.data == old(l.data) && l.pe == old(l.pe) && l.p >= old(l.p) && !$sawNI && (t != tkEOF ==> l.p > old(l.p))
 //@   decreases l.pe - l.p, ite(t == tkEOF, 0, 1)
 //@ func parser.parseFunctionTerm [C06]
 //@   local $sawNI bool = false
-//@   local $ftParsed bool = false
-//@   local $ftKs Identifier = IdentifierFromString("")
-//@   local $ftTarget Identifier = IdentifierFromString("")
+//@   let s = old(l.$ts)
+//@   let e1 = old(l.p)
+//@   let e2 = ufInt("lex.end", old(l.data), old(l.p))
 //@   requires l != nil && inv(l)
+//@   requires id-current: idcur(l)
 //@   decreases l.pe - l.p, 1
-//@   after parser.parseQualifiedIdentifier#1 set $ftParsed = (result3 == nil); $ftKs = result0; $ftTarget = result1
 //@   after parser.parseTerm#* set $sawNI = $sawNI || !result0
 //@   ensures inv(l) && l.data == old(l.data) && l.pe == old(l.pe) && l.p >= old(l.p)
 //@   ensures error-not-idempotent: err != nil ==> !idempotent
 //@   ensures propagation: idempotent ==> !$sawNI
-//@   ensures non-idempotent-functions: idempotent ==> $ftParsed && !(verifSpecNonIdempotentFunc($ftTarget) && (len($ftKs.id) == 0 || $ftKs.equal("system")))
+// the function named in the statement's text at the term's position - unqualified, or qualified with system
+//@   ensures unqualified-function-rule: idempotent && lexTok(l, e1) != tkDot ==> !verifSpecNonIdempotentFunc(lexId(l, s))
+//@   ensures system-function-rule: idempotent && lexTok(l, e1) == tkDot && lexId(l, s).equal("system") ==> !verifSpecNonIdempotentFunc(lexId(l, e2))
 //@   ensures typ == termFunctionCall
-//@   modifies l.p, l.id, l.m
+//@   modifies l.p, l.id, l.m, l.mid, l.$ts, l.$mts
 
 // ---- relations, update operations ----
 
 //@ loop parser.parseRelation #1
+//@   invariant tokcur(l, t)
 //@   invariant inv(l) && l.data == old(l.data) && l.pe == old(l.pe) && l.p > old(l.p) && !$sawNI
 //@   decreases l.pe - l.p, ite(t == tkEOF, 0, 1)
 //@ func parser.parseRelation [C06]
+//@   requires tok-current: tokcur(l, t)
 //@   local $sawNI bool = false
 //@   requires l != nil && inv(l)
 //@   decreases l.pe - l.p, ite(t == tkLparen, 2, 0)
@@ -343,9 +410,10 @@ func verifSpecNonIdempotentFunc(name Identifier) bool { return name.equal("uuid"
 //@   ensures inv(l) && l.data == old(l.data) && l.pe == old(l.pe) && l.p >= old(l.p)
 //@   ensures error-not-idempotent: err != nil ==> !idempotent
 //@   ensures propagation: idempotent ==> !$sawNI
-//@   modifies l.p, l.id, l.m
+//@   modifies l.p, l.id, l.m, l.mid, l.$ts, l.$mts
 
 //@ loop parser.parseIdentifiersRelation #1
+//@   invariant tokcur(l, t)
 //@   invariant inv(l) && l.data == old(l.data) && l.pe == old(l.pe) && l.p >= old(l.p) && !$sawNI
 //@   decreases l.pe - l.p, ite(t == tkEOF, 0, 1)
 //@ func parser.parseIdentifiersRelation [C06]
@@ -355,12 +423,14 @@ func verifSpecNonIdempotentFunc(name Identifier) bool { return name.equal("uuid"
 //@   ensures inv(l) && l.data == old(l.data) && l.pe == old(l.pe) && l.p >= old(l.p)
 //@   ensures error-not-idempotent: err != nil ==> !idempotent
 //@   ensures propagation: idempotent ==> !$sawNI
-//@   modifies l.p, l.id, l.m
+//@   modifies l.p, l.id, l.m, l.mid, l.$ts, l.$mts
 
 //@ loop parser.parseWhereClause #1
+//@   invariant tokcur(l, t)
 //@   invariant inv(l) && l.data == old(l.data) && l.pe == old(l.pe) && l.p >= old(l.p) && !$sawNI
 //@   decreases l.pe - l.p, ite(t == tkEOF, 0, 1)
 //@ func parser.parseWhereClause [C06]
+//@   ensures idempotent ==> tokcur(l, t)
 //@   local $sawNI bool = false
 //@   requires l != nil && inv(l)
 //@   after parser.parseRelation#* set $sawNI = $sawNI || !result0
@@ -368,11 +438,12 @@ func verifSpecNonIdempotentFunc(name Identifier) bool { return name.equal("uuid"
 //@   ensures error-not-idempotent: err != nil ==> !idempotent
 //@   ensures propagation: idempotent ==> !$sawNI
 //@   ensures stops-at: idempotent ==> t == tkIf || t == tkEOF || t == tkEOS || t == tkInsert || t == tkUpdate || t == tkDelete || t == tkApply
-//@   modifies l.p, l.id, l.m
+//@   modifies l.p, l.id, l.m, l.mid, l.$ts, l.$mts
 
 // Update operations: "counter updates, list append/prepend/remove and ambiguous col = col +/- ..."
 //   $uoOperandType: the term type of the operand of + / - / += / -= when such an operator is present
 //@ func parser.parseUpdateOp [C06]
+//@   requires tok-current: tokcur(l, t)
 //@   local $sawNI bool = false
 //@   local $uoArith bool = false
 //@   local $uoTyp termType = termInvalid
@@ -384,23 +455,28 @@ func verifSpecNonIdempotentFunc(name Identifier) bool { return name.equal("uuid"
 //@   ensures propagation: idempotent ==> !$sawNI
 //@   ensures arithmetic-operands: idempotent && $uoArith ==> $uoTyp == termSetMapUdtLiteral || $uoTyp == termTupleLiteral
 //@   ensures needs-identifier: t != tkIdentifier ==> !idempotent
-//@   modifies l.p, l.id, l.m
+//@   modifies l.p, l.id, l.m, l.mid, l.$ts, l.$mts
 
 //@ func parser.parseUsingClause [C06]
+//@   ensures err == nil ==> tokcur(l, next)
+//@   requires tok-current: tokcur(l, t)
 //@   requires l != nil && inv(l)
 //@   ensures inv(l) && l.data == old(l.data) && l.pe == old(l.pe) && l.p >= old(l.p)
 //@   ensures err != nil ==> next == tkInvalid
-//@   modifies l.p, l.id, l.m
+//@   modifies l.p, l.id, l.m, l.mid, l.$ts, l.$mts
 
 // ---- statements ----
 
 //@ loop parser.isIdempotentInsertStmt #1
+//@   invariant tokcur(l, t)
 //@   invariant inv(l) && l.data == old(l.data) && l.pe == old(l.pe) && !$sawNI && l.p > old(l.p) && (!$sawIf || t == tkIf)
 //@   decreases l.pe - l.p, ite(t == tkEOF, 0, 1)
 //@ loop parser.isIdempotentInsertStmt #2
+//@   invariant tokcur(l, t)
 //@   invariant inv(l) && l.data == old(l.data) && l.pe == old(l.pe) && !$sawNI && l.p > old(l.p) && (!$sawIf || t == tkIf)
 //@   decreases l.pe - l.p, ite(t == tkEOF, 0, 1)
 //@ func parser.isIdempotentInsertStmt [C06]
+//@   ensures idempotent ==> tokcur(l, t)
 //@   local $sawNI bool = false
 //@   local $sawIf bool = false
 //@   after parser.lexer.next#* set $sawIf = $sawIf || result == tkIf
@@ -412,15 +488,18 @@ func verifSpecNonIdempotentFunc(name Identifier) bool { return name.equal("uuid"
 //@   ensures error-not-idempotent: err != nil ==> !idempotent
 //@   ensures propagation: idempotent ==> !$sawNI
 //@   ensures ends-at-terminator: idempotent ==> t == tkEOF || t == tkEOS || t == tkInsert || t == tkUpdate || t == tkDelete || t == tkApply
-//@   modifies l.p, l.id, l.m
+//@   modifies l.p, l.id, l.m, l.mid, l.$ts, l.$mts
 
 //@ loop parser.isIdempotentUpdateStmt #2
+//@   invariant tokcur(l, t)
 //@   invariant inv(l) && l.data == old(l.data) && l.pe == old(l.pe) && !$sawNI && l.p > old(l.p) && (!$sawIf || t == tkIf)
 //@   decreases l.pe - l.p, ite(t == tkEOF, 0, 1)
 //@ loop parser.isIdempotentUpdateStmt #3
+//@   invariant tokcur(l, t)
 //@   invariant inv(l) && l.data == old(l.data) && l.pe == old(l.pe) && !$sawNI && l.p > old(l.p) && (!$sawIf || t == tkIf)
 //@   decreases l.pe - l.p, ite(t == tkEOF, 0, 1)
 //@ func parser.isIdempotentUpdateStmt [C06]
+//@   ensures idempotent ==> tokcur(l, t)
 //@   local $sawNI bool = false
 //@   local $sawIf bool = false
 //@   after parser.lexer.next#* set $sawIf = $sawIf || result == tkIf
@@ -433,15 +512,18 @@ func verifSpecNonIdempotentFunc(name Identifier) bool { return name.equal("uuid"
 //@   ensures error-not-idempotent: err != nil ==> !idempotent
 //@   ensures propagation: idempotent ==> !$sawNI
 //@   ensures ends-at-terminator: idempotent ==> t == tkEOF || t == tkEOS || t == tkInsert || t == tkUpdate || t == tkDelete || t == tkApply
-//@   modifies l.p, l.id, l.m
+//@   modifies l.p, l.id, l.m, l.mid, l.$ts, l.$mts
 
 //@ loop parser.isIdempotentDeleteStmt #1
+//@   invariant tokcur(l, t)
 //@   invariant inv(l) && l.data == old(l.data) && l.pe == old(l.pe) && !$sawNI && !$delBadIndex && (!$sawIf || t == tkIf) && (t != tkEOF ==> l.p > old(l.p))
 //@   decreases l.pe - l.p, ite(t == tkEOF, 0, 1)
 //@ loop parser.isIdempotentDeleteStmt #2
+//@   invariant tokcur(l, t)
 //@   invariant inv(l) && l.data == old(l.data) && l.pe == old(l.pe) && !$sawNI && l.p > old(l.p) && (!$sawIf || t == tkIf) && !$delBadIndex
 //@   decreases l.pe - l.p, ite(t == tkEOF, 0, 1)
 //@ func parser.isIdempotentDeleteStmt [C06]
+//@   ensures idempotent ==> tokcur(l, t)
 //@   local $sawNI bool = false
 //@   local $sawIf bool = false
 //@   after parser.lexer.next#* set $sawIf = $sawIf || result == tkIf
@@ -457,9 +539,10 @@ func verifSpecNonIdempotentFunc(name Identifier) bool { return name.equal("uuid"
 //@   ensures propagation: idempotent ==> !$sawNI
 //@   ensures delete-by-index: idempotent ==> !$delBadIndex
 //@   ensures ends-at-terminator: idempotent ==> t == tkEOF || t == tkEOS || t == tkInsert || t == tkUpdate || t == tkDelete || t == tkApply
-//@   modifies l.p, l.id, l.m
+//@   modifies l.p, l.id, l.m, l.mid, l.$ts, l.$mts
 
 //@ loop parser.isIdempotentBatchStmt #1
+//@   invariant tokcur(l, t)
 //@   invariant inv(l) && l.data == old(l.data) && l.pe == old(l.pe) && !$sawNI
 //@   decreases l.pe - l.p, ite(t == tkEOF || t == tkApply, 0, 1)
 //@ func parser.isIdempotentBatchStmt [C06]
@@ -471,7 +554,7 @@ func verifSpecNonIdempotentFunc(name Identifier) bool { return name.equal("uuid"
 //@   ensures inv(l) && l.data == old(l.data) && l.pe == old(l.pe)
 //@   ensures error-not-idempotent: err != nil ==> !idempotent
 //@   ensures propagation: idempotent ==> !$sawNI
-//@   modifies l.p, l.id, l.m
+//@   modifies l.p, l.id, l.m, l.mid, l.$ts, l.$mts
 
 // isIdempotentStmt: SELECT is idempotent; USE/CREATE/ALTER/DROP and unknown statements are not; a
 // mutation is idempotent only if its parser said so and the statement ended cleanly.
@@ -487,7 +570,7 @@ func verifSpecNonIdempotentFunc(name Identifier) bool { return name.equal("uuid"
 //@   ensures select: t == tkSelect ==> idempotent && err == nil
 //@   ensures ddl-and-use: t == tkUse || t == tkCreate || t == tkAlter || t == tkDrop ==> !idempotent
 //@   ensures only-known-statements: idempotent ==> t == tkSelect || t == tkInsert || t == tkUpdate || t == tkDelete || t == tkBegin
-//@   modifies l.p, l.id, l.m
+//@   modifies l.p, l.id, l.m, l.mid, l.$ts, l.$mts
 
 
 // IsQueryIdempotent: errors are never idempotent (verified); as a Go function of its argument only,
